@@ -41,7 +41,8 @@ def collect(pid, name, src="/tmp/seed"):
     # ---- confirm in the scratch worktree ----
     conf = {}
     demo_pkgs = sorted({"./" + os.path.dirname(f) if os.path.dirname(f) else "." for f in demos})
-    run_demo = "go test -vet=off -count=1 -run 'Seed|seed|SEED' %s 2>&1 | grep -E '^(--- FAIL|FAIL|ok|panic)' | head -5" % " ".join(demo_pkgs)
+    race = "-race " if pid == "C15" else ""  # data-race demonstrations only fail under the race detector
+    run_demo = "go test %s-vet=off -count=1 -run 'Seed|seed|SEED' %s 2>&1 | grep -E '^(--- FAIL|FAIL|ok|panic)' | head -5" % (race, " ".join(demo_pkgs))
     rc, o = sh("go build ./... && go build -tags verif ./...", cwd=wt)
     conf["builds_with_change"] = rc == 0
     rc, o = sh("go test -vet=off -count=1 -skip 'Seed|seed|SEED' ./... 2>&1 | grep -E '^(--- FAIL|FAIL|ok)'", cwd=wt)
